@@ -189,7 +189,8 @@ Example C08_nonvacuous_wf :
   c08_wf (KCplx ty_f32 ty_f64 [1; 2; 3; 4] [47] 7) = true /\
   c08_wf (KRef ty_f64 c08_f64s 6 3 CAligned) = true /\
   c08_wf (KWrongType ty_f64 ty_f32 c08_f64s 6 3) = true /\
-  c08_wf (KWrongFmt ty_f64 c08_f64s 2) = true /\
+  c08_wf (KWrongFmt ty_f64 c08_f64s 2 false) = true /\
+  c08_wf (KWrongFmt ty_f64 [] 0 true) = true /\
   c08_wf (KNet RRef CAligned ty_f64 c08_f64s 6) = true.
 Proof. vm_compute. repeat split; reflexivity. Qed.
 
